@@ -21,7 +21,7 @@ EXPLANATION = ("transform models written through the verified API model and tied
                "case by brute force of the definitions (evalc on the original circuit) against certified simulation of the recorded "
                "transform circuits and the recorded return values; descending search, flipped-node and xor-compare lemmas proved")
 SHARD = 8
-HASHSEEDS = {"quick": [0, 1], "thorough": [0, 1, 2, 3, 4, 5, 6, 7]}
+HASHSEEDS = {"quick": [0, 1], "thorough": [0, 1, 2, 3]}
 EXC = ("ValueError", "KeyError", "IndexError", "StopIteration", "NotImplementedError")
 
 
@@ -144,7 +144,7 @@ def gen_sz(rng, tier):
 
 
 def gen_sv(rng, tier):
-    big = rng.random() < (0.06 if tier == "quick" else 0.2)
+    big = rng.random() < (0.06 if tier == "quick" else 0.15)
     while True:
         d, special = gen_circuit(rng, tier, 6 if big else 4)
         n = pick_node(rng, d, special)
@@ -167,7 +167,7 @@ def gen_inf(rng, tier):
 
 
 def generate(rng, tier):
-    n = 50 if tier == "quick" else 700
+    n = 50 if tier == "quick" else 150
     out = []
     for _ in range(n):
         out.append(gen_sz(rng, tier))
@@ -360,15 +360,22 @@ def mutate_case(rng, case):
 
 
 CLAIMED = True
-LEVEL_TEXT = ("Theorems (all widths / counts / solvers meeting the stated contract): the descending search of props.sensitivity over the "
-              "int_to_bin/clog2 encoding returns the maximum count (incl. the unconstrained top bit at power-of-two cone sizes); the "
-              "flipped-node step (c1_n := not c0_n) and the xor-compare step have the stated semantics on every graph; influence, "
-              "avg_sensitivity and sensitize meet their definitions given the transform specification and exact model counting. The "
-              "whole-transform statements (sensitization_spec_full, sensitivity_transform_spec_full) are decided per generated case: "
-              "the Coq oracle brute-forces the definitions on the original circuit and compares them with a certified simulation of the "
-              "recorded transform circuits under every valuation and with the recorded return values.")
-LEVEL_NOTE = ("Section hypotheses (not axioms): a sound and complete SAT solver / exact model counter (C01, C08), correctness of the "
-              "popcount sub-circuit (discharged by C13), the transform specifications in the props-level theorems. Trusted: Coq kernel + "
-              "vm_compute, std++, the API model of Base/Api.v, harness canonicalisation (topologically sorted dumps, Fraction(float)), "
-              "pure-Python pysat stand-in (its answers are re-checked by the oracle).")
-TECHNIQUE = "Coq proofs (search, per-construction lemmas) + transform models tied by graph equality + vm_compute oracle of the definitions"
+LEVEL_TEXT = ("Theorems (Coq, closed under the global context): (1) for EVERY graph that has the shape of the sensitization circuit "
+              "(prefixed copies, ties, c1_n := not c0_n, xor compares, sat) over a closed acyclic circuit whose free nodes are inputs, every "
+              "consistent valuation has sat = 1 iff inverting n changes a selected endpoint, the first copy carries evalc and the second copy "
+              "the circuit with n inverted; (2) for every graph with the shape of the sensitivity circuit, dif_out_s = 1 iff flipping s flips n "
+              "and the sen_out bits are the binary digits of the number of such s (popcount correctness as hypothesis); (3) the descending "
+              "search of props.sensitivity over the clog2/int_to_bin encoding returns the maximum for all m (incl. the unconstrained top bit at "
+              "m = 2^w), and composed with (2) it returns the sensitivity; (4) influence, avg_sensitivity, sensitize meet their definitions "
+              "relative to exact model counting / a sound and complete solver. The shapes are tied to tx.py per case: sound boolean checkers "
+              "run on every recorded implementation output, which is also compared with the output of the transform models written through "
+              "the API model. Independently the Coq oracle brute-forces the definitions on the original circuit and compares them with a "
+              "certified simulation of the recorded circuits under every valuation and with every recorded return value.")
+LEVEL_NOTE = ("Not proved for all inputs: that the model functions sensitization_transform / sensitivity_transform always produce the shape "
+              "(sensitization_spec_full / sensitivity_transform_spec_full are kept as Definitions; the _partial theorems quantify over all "
+              "graphs of the shape and the shape is checked on each recorded output). Section/theorem hypotheses (not axioms): sound and "
+              "complete SAT solver on the queries made (C01; satisfiable: brute force, theorem solver_exists), exact model counting projected "
+              "on startpoints (C08), popcount_correct = correctness of logic.popcount (discharged by C13). Trusted: Coq kernel + vm_compute, "
+              "std++, the API model of Base/Api.v, harness canonicalisation (topologically sorted dumps, Fraction(float)), pure-Python pysat "
+              "stand-in (its answers are re-checked by the oracle).")
+TECHNIQUE = "Coq proofs (shape theorems, search, props-level specs, certificates) + transform models tied by graph equality + vm_compute oracle of the definitions"
